@@ -9,14 +9,22 @@ package main
 // ext:    stdlib answers the model may need (float text, zone offsets), space separated.
 
 import (
+	"bytes"
+	"database/sql"
 	"encoding/base64"
 	"encoding/json"
+	"errors"
 	"fmt"
 	"math"
+	"math/big"
+	"net"
+	"os"
+	"reflect"
 	"runtime"
 	"strconv"
 	"strings"
 	"sync"
+	"sync/atomic"
 	"time"
 
 	"github.com/cgi-fr/jsonline/pkg/cast"
@@ -419,6 +427,13 @@ func genC09(cw *caseWriter, seed uint64, tier string) {
 			emitCast(cw, "C09", c, b, true)
 		}
 	}
+	// carriers of a number that are not in the supported set (refused today): if one of them ever becomes a
+	// source, its value has to be range-checked like the others
+	for _, s := range exoticNumbers() {
+		for _, c := range intCallees {
+			emitCast(cw, "C09", c, s, true)
+		}
+	}
 	// uniformly random
 	n := 3000
 	if tier == "thorough" {
@@ -481,11 +496,47 @@ func c10Sources() []interface{} {
 		[]int{1}, []string{"a"}, []interface{}{1, "a"}, []interface{}(nil), map[string]interface{}{"a": 1}, map[string]interface{}(nil), map[int]int{1: 2},
 		struct{}{}, func() {}, make(chan int), complex(1, 2), fmt.Errorf("e"), uintptr(1), [3]int{1, 2, 3}, [2]string{"a", "b"}, [2]myByte{1, 2}, [0]myByte{},
 	}
+	srcs = append(srcs, exoticNumbers()...)
+	tp := time.Date(2021, 9, 24, 21, 21, 0, 0, time.FixedZone("", 7200))
+	srcs = append(srcs, &tp, json.RawMessage(`{"a":1}`), json.RawMessage(`null`), json.RawMessage(nil), json.RawMessage(`"2021-09-24"`), json.RawMessage("true"),
+		net.IP{1, 2, 3, 4}, net.HardwareAddr{1, 2}, bytes.NewBufferString("12"), strings.NewReader("12"), &strings.Builder{}, []rune("12"), []uint16{1}, [2]bool{true, false},
+		time.UTC, time.Saturday, sql.NullBool{Bool: true, Valid: true}, sql.NullTime{Time: tp, Valid: true}, sql.RawBytes("12"), errors.New("12"), os.ErrNotExist)
 	// byte arrays of every length 0-16
 	srcs = append(srcs, [0]byte{}, [1]byte{1}, [2]byte{1, 2}, [3]byte{1, 2, 3}, [4]byte{1, 2, 3, 4}, [5]byte{5}, [6]byte{6}, [7]byte{7}, [8]byte{1, 2, 3, 4, 5, 6, 7, 8},
 		[9]byte{9}, [10]byte{10}, [11]byte{11}, [12]byte{12}, [13]byte{13}, [14]byte{14}, [15]byte{15}, [16]byte{16})
 	return srcs
 }
+
+// exoticNumbers: numbers in carriers outside the supported source types (big numbers, raw JSON, durations,
+// named and pointer types, Stringers), with values in and out of every integer range.
+func exoticNumbers() []interface{} {
+	bigOf := func(s string) *big.Int { b, _ := new(big.Int).SetString(s, 10); return b }
+	i300, i5, s300 := 300, 5, "300"
+	n300 := json.Number("300")
+	u64max := uint64(math.MaxUint64)
+	return []interface{}{
+		bigOf("5"), bigOf("300"), bigOf("-129"), bigOf("9223372036854775808"), bigOf("-9223372036854775809"), bigOf("18446744073709551616"),
+		bigOf("18446744073709551621"), bigOf("36893488147419103359"), bigOf("340282366920938463463374607431768211461"), *bigOf("300"),
+		big.NewFloat(300), big.NewFloat(1e30), big.NewRat(300, 1), big.NewRat(1, 3),
+		json.RawMessage("300"), json.RawMessage("5"), json.RawMessage(`"300"`), json.RawMessage("1e30"), json.RawMessage("-1"),
+		time.Duration(300), time.Duration(math.MaxInt64), time.Month(13), time.Second,
+		myInt(300), myInt(5), myInt(-1), myFloat(300.9), myFloat(1e30), myString("300"), myByte(200),
+		&i300, &i5, &s300, &n300, &u64max, [1]int{300}, []int{300}, []interface{}{300}, map[string]interface{}{"v": 300},
+		stringerNum(300), textNum("300"), complex(300, 0), complex64(5), uintptr(300), uintptr(math.MaxUint64),
+		sql.NullInt64{Int64: 300, Valid: true}, sql.NullString{String: "300", Valid: true}, reflect.ValueOf(300), atomicOf(300),
+	}
+}
+
+type stringerNum int
+
+func (s stringerNum) String() string { return strconv.Itoa(int(s)) }
+
+type textNum string
+
+func (t textNum) MarshalText() ([]byte, error) { return []byte(t), nil }
+func (t textNum) Int64() (int64, error)         { return strconv.ParseInt(string(t), 10, 64) }
+
+func atomicOf(v int64) *atomic.Int64 { a := new(atomic.Int64); a.Store(v); return a }
 
 func genC10(cw *caseWriter, seed uint64, tier string) {
 	callees := append([]string{}, allCasters...)
